@@ -1,10 +1,12 @@
 """C02 - instant <-> civil datetime under a fixed offset (narrow)."""
 from ..rules_shape import floor_a, const_agree, req_dep, split_pipeline
 from ..rules_dep import run_dep
+from ..rules_signpair import run_signpair
 
 
 def run(ctx, rep):
     run_dep(ctx, rep, "C02")
+    run_signpair(ctx, rep)
     prog = ctx.prog("Q")
     rep.notes.append("Does not decide exactness of the decomposition for all values.")
     floor_a(ctx, rep)
